@@ -78,6 +78,9 @@ def base_instance(rng, *, vtype=None, k=None, N=None, hermitian_mode=True, fdkin
                                           fdkind=rng.choice(fdkinds) if fdkinds else None,
                                           hermitian=hermitian_mode)
             inst["format"] = rng.choice(FORMATS)
+            if (inst["vtype"] == "sympy" and inst["d"] <= 3 and inst["N"] <= 3 and rng.random() < 0.3
+                    and all(hermitian.epair(e)[1] == 0 for e in inst["E"])):
+                inst["symbolic_consts"] = True      # symbolic unperturbed levels and coupling constant
             return inst
         except Regenerate:
             continue
